@@ -2,7 +2,11 @@
 
 package soyhtml
 
-import "bytes"
+import (
+	"bytes"
+
+	"github.com/robfig/soy/internal/jsescape"
+)
 
 // Hooks for the /verif machinery (build tag verif only).
 
@@ -12,3 +16,6 @@ func VerifHTMLEscape(s string) []byte {
 	htmlEscapeString(&b, s)
 	return b.Bytes()
 }
+
+// VerifJSEscape exposes the JavaScript string escaper (internal/jsescape).
+func VerifJSEscape(s string) string { return jsescape.EscapeString(s) }
